@@ -415,8 +415,11 @@ func blockStringValue(in string) string {
 		}
 	}
 	if commonIndent > 0 {
-		for i, line := range lines {
+		for i := 1; i < len(lines); i++ {
+			line := lines[i]
 			if commonIndent > len(line) {
+				// only a blank line can be shorter than the common indentation
+				lines[i] = ""
 				continue
 			}
 			lines[i] = line[commonIndent:]
